@@ -54,6 +54,11 @@ def run(tier, seed, t0):
     res = vlib.run_workers(w, args, timeout=budget + 300)
     real = QUICK_REAL if tier == "quick" else THOROUGH_REAL
     res += vlib.run_workers(wr, [["-scenario", f, "-tier", tier] for f in real], timeout=900, jobs=4)
+    # adjunct: the same real-stack families under the Go race detector; only reports that involve pkg/dtls code count
+    # (pion's own goroutines are third-party code outside the property)
+    def key(sc, k, text):
+        return ("data-race:" + k) if "conjure/pkg/dtls." in text else None
+    res += vlib.race_pass("c16real", INJECTS, "./internal/zzverif_c16", ["cred:direct", "cred:many:4"] + (["cred:listener", "cred:many:16"] if tier == "thorough" else []), budget=120, keyfn=key)
     vlib.finish(PID, tier, "model_checking", res, t0, ASSUME,
                 "per family (see scenarios): read = every message sequence up to the stated depth over the size alphabet (heartbeats interleaved anywhere) x every terminal (EOF, reset, data+error, silence) x every cyclic read-size pattern over {1,2,3,4,6} x all interleavings within the preemption bound, oracle: bytes read == concatenation of the peer's data, error only after all of it, no heartbeat surfaces; hbloss = heartbeat trains (count, period, phase) x data arrival sets, oracle on the virtual clock: closed no later than 2 intervals after the last heartbeat, nothing lost before the earliest legitimate close; flow = every write-size sequence x every drain schedule of the modelled network (x close at any moment), oracle: buffered amount <= limit + one write, every write returns, accepted messages == successful writes; route = every multiset of acceptors {secret, cancelled at an arbitrary moment, short timeout} x clients {genuine, unregistered, forged, stalling} x all schedules within the delay bound on the real listener code, oracle: no cross delivery, nothing delivered twice, forged/unregistered never complete, registration maps empty after every accept returned, a completed handshake reaches its sole uncancelled acceptor; cred = secret alphabet squared through the real pion stack",
                 seed=seed)
